@@ -364,7 +364,7 @@ def monitor(scen, plan, kind, ref, out, resolver):
     """None when the run satisfies the property, else (key, text)"""
     status, events, points, dg = parse_out(out)
     m = ev_map(events)
-    ra = [t for t in events if t.startswith("RETRYARGS:")]
+    ra = [t for t in events if t.startswith("RETRYARGS:")] or re.findall(r"RETRYARGS:\w+:[0-9a-f]+->[0-9a-f]+", dg)
     if ra:
         nm_, chg = ra[0].split(":")[1], ra[0].split(":")[2]
         return ("retry_args", "an interrupted %s() was retried with different arguments (same descriptor/buffer, length/flags %s)%s" %
@@ -489,6 +489,8 @@ def poll_cases(rng, thorough):
                 half = max(T // 2, 1)
                 scripts = [[], ["t"], ["i0"], ["i1"], ["i%d" % half], ["i%d" % (T - 1)], ["i%d" % T], ["i%d" % (T + 50)],
                            ["e0"], ["e1"], ["e%d" % half], ["i0", "e1"], ["i1", "e1"], ["i%d" % half, "e0"]]
+                scripts += [["f0"], ["f1"], ["f%d" % half], ["f1", "t"], ["f1", "f0", "t"], ["i1", "f1"], ["i%d" % half, "f0", "t"],
+                            ["f1", "i0"], ["f1", "e0"], ["f0"] * 50, ["i0", "f1", "f0", "f0", "i0"]]
                 for k in (1, 3, 50):
                     scripts.append(["i0"] * k)
                     scripts.append(["i1"] * k)
@@ -499,12 +501,12 @@ def poll_cases(rng, thorough):
                     scripts.append(["i0"] * k + ["e1"])
                 for _ in range(40 if thorough else 6):
                     n = rng.randint(1, 8)
-                    scripts.append([rng.choice(["i0", "i1", "i%d" % rng.randint(0, T), "i%d" % half, "t", "e%d" % rng.randint(0, T)])
+                    scripts.append([rng.choice(["i0", "i1", "i%d" % rng.randint(0, T), "i%d" % half, "t", "e%d" % rng.randint(0, T), "f0", "f%d" % rng.randint(0, T)])
                                     for _ in range(n)])
                 for sc in scripts:
                     cases.append("%s %d %d ; %s" % (mode, metrics, T, " ".join(sc)))
     # every script of length <= 3 over a small alphabet
-    alpha = ["i0", "i1", "i5", "i10", "t", "e1"]
+    alpha = ["i0", "i1", "i5", "i10", "t", "e1", "f1"]
     for mode in ("once",):
         for metrics in (0, 1):
             for a in alpha:
@@ -565,10 +567,17 @@ def poll_monitor(case, line):
             g, base = ph["given"], ph["calls"][0][1]
             if g >= 0 and ph["blocked"] is not None and ph["blocked"] > g:
                 return ("late", "one uv__io_poll call blocked %d ms with a timeout of %d" % (ph["blocked"], g))
+            seen_full = False
+            for (t, now, ans) in ph["calls"]:
+                if seen_full and t != 0:
+                    return ("late", "after a completely filled batch uv__io_poll polled again with timeout %d instead of 0 "
+                            "(entry timeout %d): the loop blocks although callbacks have run" % (t, g))
+                if ans.startswith("f"):
+                    seen_full = True
             for (t, now, ans) in ph["calls"]:
                 if g >= 0 and (t < 0 or t > g - (now - base)):
                     return ("late", "epoll_pwait was given %d ms after %d of %d ms had elapsed" % (t, now - base, g))
-            quiet = not any(a.startswith("e") for _, _, a in ph["calls"])
+            quiet = not any(a.startswith("e") or a.startswith("f") for _, _, a in ph["calls"])
             if g > 0 and ph["blocked"] is not None and ph["blocked"] < g and quiet and not r["async"]:
                 early = "uv__io_poll(%d) returned after %d ms without events (calls %s)" % (
                     g, ph["blocked"], ",".join("%d@%d" % (t, n - base) for t, n, _ in ph["calls"]))
